@@ -92,3 +92,11 @@ template <class C> static inline void dec_seq(const tev* t, unsigned n, sres4* r
 }
 KFN void k_dec_flist(const tev* t, unsigned n, sres4* r) { dec_seq<std::forward_list<uint16_t>>(t, n, r); }
 KFN void k_dec_vector(const tev* t, unsigned n, sres4* r) { dec_seq<std::vector<uint16_t>>(t, n, r); }
+
+// ---- encode side: reflect::encode_traits<integer / std::pair> on a recording visitor (which visit function is called, with which value)
+#include <jsoncons/reflect/encode_traits.hpp>
+#include "../jrecvis.h"
+template <class T> static inline void enc_int(unsigned long long bits, jev* out, unsigned* n) { jrec v(out, 4); T x = (T)bits; auto r = reflect::encode_traits<T>::encode(make_alloc_set(), x, v); *n = v.n | (r ? 0u : 0x100u); }
+#define ENCINT(NAME, T) KFN void k_encint_##NAME(unsigned long long bits, jev* out, unsigned* n) { enc_int<T>(bits, out, n); }
+ENCINT(i8, int8_t) ENCINT(i16, int16_t) ENCINT(i32, int32_t) ENCINT(i64, int64_t) ENCINT(u8, uint8_t) ENCINT(u16, uint16_t) ENCINT(u32, uint32_t) ENCINT(u64, uint64_t)
+KFN void k_encpair_u64_i64(unsigned long long a, unsigned long long b, jev* out, unsigned* n) { jrec v(out, 4); std::pair<uint64_t, int64_t> x(a, (int64_t)b); auto r = reflect::encode_traits<std::pair<uint64_t, int64_t>>::encode(make_alloc_set(), x, v); *n = v.n | (r ? 0u : 0x100u); }
